@@ -131,4 +131,5 @@ Definition tx_mismatch (c : tx_case) : bool :=
 (* ---- genesis export/import cases: the confirm stores after the real ExportGenesis -> wipe -> InitGenesis ---- *)
 Record imp_case := { ic_st : cstate; ic_after : list (ckey * cmsg) }.
 Definition mk_imp_case st after : imp_case := {| ic_st := st; ic_after := after |}.
-Definition imp_mismatch (c : imp_case) : bool := negb (conf_set_eqb (import_conf (ic_st c)) (ic_after c)).
+Definition imp_mismatch (c : imp_case) : bool :=
+  negb (conf_set_eqb (import_conf genesis_confirm_owner_by_external (ic_st c)) (ic_after c)).
